@@ -554,10 +554,11 @@ impl Source {
     pub fn rules_requires_root(&self) -> Option<bool> {
         self.0
             .get("Rules-Requires-Root")
-            .map(|s| match s.to_lowercase().as_str() {
-                "yes" => true,
-                "no" => false,
-                _ => panic!("invalid Rules-Requires-Root value"),
+            .and_then(|s| match s.to_lowercase().as_str() {
+                "yes" => Some(true),
+                "no" => Some(false),
+                // other values are allowed by policy ("binary-targets", "dpkg/target-subcommand"): no flag
+                _ => None,
             })
     }
 
@@ -863,7 +864,7 @@ impl Binary {
 
     /// The Multi-Arch field
     pub fn multi_arch(&self) -> Option<MultiArch> {
-        self.0.get("Multi-Arch").map(|s| s.parse().unwrap())
+        self.0.get("Multi-Arch").and_then(|s| s.parse().ok())
     }
 
     /// Set the Multi-Arch field
